@@ -394,7 +394,7 @@ macro_rules! prim_payload {
     )*};
 }
 
-prim_payload!(u8, u16, u32, u64, i8, i16, i32, i64, usize, isize);
+prim_payload!(u8, u16, u32, u64, u128, i8, i16, i32, i64, i128, usize, isize);
 
 impl Payload for bool {
     fn a(&self) -> i8 {
@@ -907,4 +907,22 @@ pub fn leak<X>(x: X) -> &'static X {
 
 pub fn leak_mut<X>(x: X) -> &'static mut X {
     Box::leak(Box::new(x))
+}
+
+/// key printed verbatim by the reference Debug shapes (map form without a name)
+pub struct RawKey(pub &'static str);
+
+impl fmt::Debug for RawKey {
+    fn fmt(&self, f: &mut fmt::Formatter<'_>) -> fmt::Result {
+        f.write_str(self.0)
+    }
+}
+
+/// a field formatted through the custom method `fmt_alt`
+pub struct ViaAlt<'a, X: Payload>(pub &'a X);
+
+impl<'a, X: Payload> fmt::Debug for ViaAlt<'a, X> {
+    fn fmt(&self, f: &mut fmt::Formatter<'_>) -> fmt::Result {
+        fmt_alt(self.0, f)
+    }
 }
